@@ -875,7 +875,7 @@ export class RegexRuntype extends BaseRuntype {
     return this.description;
   }
   schema(_ctx: SchemaContext): JSONSchema7 {
-    return annotateSchema(this.metadata, { type: "string", pattern: this.description });
+    return annotateSchema(this.metadata, { type: "string", pattern: this.regex.source });
   }
   validate(_ctx: ValidateContext, input: unknown): boolean {
     if (typeof input === "string") {
@@ -1241,6 +1241,7 @@ export class TupleRuntype extends BaseRuntype {
       type: "array",
       prefixItems,
       items,
+      minItems: this.prefix.length,
     } as any);
   }
   validate(ctx: ValidateContext, input: unknown): boolean {
